@@ -125,6 +125,12 @@ def check_cfg(ctx, fx, cfg):
                 ctx.viol("R06.7", "publish-fan-out@" + cfg, v["msg"].replace("R09.3", "R06.7"), fn=co["def"], site=co["loc"], trace=v["trace"])
             if not viols:
                 ctx.ok("R06.7", "publish-fan-out@" + cfg, co["loc"], n.stats())
+    # R06.10 (shared with C14 / C02) a handle that observed a *failed* termination stays usable: an in-place poll of the handle's
+    # own share of the termination future restores the share on every completed outcome (a share left used-up panics the
+    # observer on its next use — the failure would spread to the actor that merely watched)
+    if cfg == "tokio":
+        from props import c14 as _c14
+        _c14.check_inplace_polls(ctx, fx, "R06.10")
     # R06.6 statics
     st = sorted(s["def"] for s in fx.d["statics"])
     ctx.require(st == ["actor::service::REGISTRY", "context::id::CONTEXT_ID"], "R06.6", "statics@" + cfg, "cross-actor shared state changed: statics are %s" % st, site="crate", detail=st)
